@@ -6,6 +6,7 @@ package main
 
 import (
 	"bytes"
+	"context"
 	"fmt"
 	"os"
 	"path/filepath"
@@ -131,8 +132,90 @@ func handleNames(r *hx.Result) {
 	log.VerifReset()
 }
 
+// handleWriteLength: a write through a handle reports the full length whatever becomes of the bytes - also when the
+// asynchronous logger behind it is full and its policy drops the payload (Discard) or an older one (DiscardOldest).
+func handleWriteLength(r *hx.Result) {
+	for _, pol := range []string{"Discard", "DiscardOldest"} {
+		for _, typ := range []string{"AsyncLogger", "RollingFile"} {
+			log.Destroy()
+			log.VerifReset()
+			sys.ResetAppenders()
+			h := log.GetLogger("lg")
+			tag := log.RegisterTag("wl_tag")
+			cfg := sys.Cfg{}
+			cfg.AddRec("wl1")
+			gate := make(chan struct{})
+			entered := make(chan int64, 1024)
+			var dir string
+			if typ == "AsyncLogger" {
+				sys.GateNext["wl1"] = &sys.RecAppender{Gate: gate, Entered: entered}
+				cfg.AddLogger("lg", typ, "", "wl_tag", []sys.Ref{{Ref: "wl1"}}, false, map[string]string{"bufferSize": "100", "bufferFullPolicy": pol})
+			} else {
+				dir, _ = os.MkdirTemp(os.Getenv("VERIF_SCRATCH"), "wl-")
+				sys.LayoutGate.Gate, sys.LayoutGate.Entered = gate, entered
+				cfg.AddLogger("lg", typ, "", "wl_tag", nil, false, map[string]string{"fileDir": dir, "fileName": "wl.log", "rotation": "h", "async": "true",
+					"bufferSize": "100", "bufferFullPolicy": pol, "layout.type": "GateLayout"})
+			}
+			err := log.Refresh(cfg.Map(nil))
+			delete(sys.GateNext, "wl1")
+			release := func() {
+				close(gate)
+				sys.LayoutGate.Gate, sys.LayoutGate.Entered = nil, nil
+				if dir != "" {
+					os.RemoveAll(dir)
+				}
+			}
+			if err != nil {
+				r.SetInfra("handleWriteLength refresh: %v", err)
+				release()
+				return
+			}
+			desc := map[string]any{"logger": typ, "policy": pol, "history": "worker held, 100 slots filled, 20 more writes through the handle"}
+			// hold the worker: one event through the tag (the gate layout holds events; the gated appender holds anything)
+			bad := ""
+			ok, p := hx.Within(10e9, func() {
+				if typ == "AsyncLogger" {
+					_, _ = h.Write([]byte("first\n"))
+				} else {
+					log.Info(context.Background(), tag, log.Int("id", 1))
+				}
+				select {
+				case <-entered:
+				case <-time.After(5 * time.Second):
+					bad = "the worker did not take the first item"
+					return
+				}
+				for i := 0; i < 120; i++ {
+					pl := []byte(fmt.Sprintf("payload %03d\n", i))
+					n, werr := h.Write(pl)
+					if (n != len(pl) || werr != nil) && bad == "" {
+						bad = fmt.Sprintf("write %d (queue %s) returned (%d, %v), want (%d, nil)", i, map[bool]string{true: "full", false: "not full"}[i >= 100], n, werr, len(pl))
+					}
+				}
+			})
+			release()
+			if ok2, p2 := hx.Within(10e9, func() { log.Destroy() }); !ok2 || p2 != nil {
+				r.Violate("destroy-failed:write-length", desc, "Destroy returned=%v panic=%v", ok2, p2)
+				log.VerifReset()
+				return
+			}
+			r.Eval(120)
+			switch {
+			case !ok || p != nil:
+				r.Violate("blocked:raw-write:overflow", desc, "writing into the full queue: returned=%v panic=%v", ok, p)
+			case strings.HasPrefix(bad, "the worker"):
+				r.SetInfra("handleWriteLength: %s", bad)
+			case bad != "":
+				r.Violate("write-result", desc, "%s", bad)
+			}
+		}
+	}
+	log.VerifReset()
+}
+
 func cmdRawWrite(f hx.Flags, r *hx.Result) {
 	defer handleNames(r)
+	defer handleWriteLength(r)
 	refSetNo := 0
 	rng := hx.Rand(12)
 	console := sys.InstallConsole()
@@ -143,7 +226,7 @@ func cmdRawWrite(f hx.Flags, r *hx.Result) {
 	}
 	defer os.RemoveAll(tmp)
 	log.RegisterTimeRotation("h", log.TimeRotation{Interval: 3600e9})
-	kinds := []string{"sync", "async", "syncLayout", "asyncLayout", "roll", "rollAsync", "rollSep", "console", "file", "asyncFile"}
+	kinds := []string{"sync", "async", "syncLayout", "asyncLayout", "roll", "rollAsync", "rollSep", "console", "file", "asyncFile", "sync12", "async12"}
 	classes := []string{"plain", "empty", "one", "binary", "multiline", "format", "large"}
 	writersSet := []int{1, 2, 8}
 	if hx.Thorough() {
@@ -212,6 +295,20 @@ func cmdRawWrite(f hx.Flags, r *hx.Result) {
 					sys.GateNext["r1"] = &sys.RecAppender{Gate: heldGate}
 					cfg.AddLogger("lg", "AsyncLogger", "INFO", "some_tag", []sys.Ref{{Ref: "r1"}, {Ref: "fa", Level: "ERROR"}, {Ref: "ra"}}, true,
 						map[string]string{"bufferSize": "128", "bufferFullPolicy": "Block"})
+				case kind == "sync12" || kind == "async12":
+					// twelve references (two-digit indices in the configuration keys), every one of them receives the bytes
+					var refs []sys.Ref
+					for i := 1; i <= 12; i++ {
+						a := fmt.Sprintf("q%02d", i)
+						apps = append(apps, a)
+						cfg.AddRec(a)
+						refs = append(refs, sys.Ref{Ref: a, Level: []string{"", "WARN", "ERROR~FATAL", "NONE~NONE"}[i%4]})
+					}
+					typ, ex := "Logger", map[string]string{}
+					if kind == "async12" {
+						typ, ex = "AsyncLogger", map[string]string{"bufferSize": "128", "bufferFullPolicy": "Block"}
+					}
+					cfg.AddLogger("lg", typ, "INFO", "some_tag", refs, true, ex)
 				default:
 					apps = []string{"r1", "r2", "r3"}
 					for _, a := range apps {
